@@ -60,6 +60,11 @@ def walk(
     if conns is None:
         conns = {**m.signals, **m.ports}
     for inst in m.instances.values():
+        if ":" in inst.name or any(":" in name for name in list(m.signals) + list(m.ports)):
+            # Flattened instances and nets are named by joining hierarchical paths with ":".
+            # Names which themselves contain it could be mistaken for (and merged with) those.
+            msg = f"Cannot flatten {m}: instance and signal names must not contain ':'"
+            raise ValueError(msg)
         new_conns = {}
         new_parents = parents + [inst]
         for src_port_name, sig in inst.conns.items():
